@@ -8,7 +8,7 @@ from vf.spec import Cond, result, untraced, retraced, shard_of, thorough, concre
 
 from py_gql import build_schema
 from py_gql.schema import (
-    Argument, EnumType, EnumValue, Field, ID, InputField, InputObjectType, Int, ListType, NonNullType, ObjectType, Schema, String, Float, Boolean,
+    Argument, EnumType, EnumValue, Field, ID, InputField, InputObjectType, Int, ListType, NonNullType, ObjectType, ScalarType, Schema, String, Float, Boolean,
 )
 from py_gql.sdl import ASTSchemaPrinter
 from py_gql.lang.lexer import Lexer
@@ -201,6 +201,39 @@ def _directive_whitelist(sd: int, wl: int, rev: bool, desc: bool) -> bool:
     return result(problem == "", WL > 0)
 
 
+# ---------------------------------------------------------------- string defaults of custom scalars that look like numbers
+SCALAR_TEXTS = ("abc", "42.42", "12", "-7", "007", "1e5", " 12", "1_000", "inf", "nan", "Infinity", "-inf", "1.0", "-0.0", "0x10", "1e+40", "2147483648", "-2147483649", "", "true", "null",
+                "1.", ".5", "+1", "1e400", "12\n", "0", "-0", "1E5", "1.50")
+
+
+def _scalar_default_texts(t: int, where: int, code: bool) -> bool:
+    """
+    pre: 0 <= t < len(SCALAR_TEXTS) and 0 <= where <= 2
+    post: _
+    """
+    TXT, WH, CODE = pick(t, SCALAR_TEXTS), concrete_int(where, 0, 2), (True if code else False)
+    with untraced():
+        if CODE:
+            sc = ScalarType("S", serialize=lambda v: v, parse=lambda v: v)
+            inp = InputObjectType("In", [InputField("g", sc, default_value=TXT)])
+            q = ObjectType("Query", [Field("f", Int, args=[Argument("x", sc, default_value=TXT), Argument("xs", ListType(sc), default_value=[TXT, "abc"]),
+                                                            Argument("i", inp, default_value={"g": TXT})])])
+            schema = Schema(q)
+        else:
+            lit = json.dumps(TXT)
+            schema = build_schema("scalar S input In { g: S = %s } type Query { f(x: S = %s, xs: [S] = [%s, \"abc\"], i: In = {g: %s}): Int }" % (lit, lit, lit, lit))
+
+        def defaults(s):
+            f = s.types["Query"].field_map["f"]
+            return [f.argument_map["x"].default_value, f.argument_map["xs"].default_value, f.argument_map["i"].default_value, s.types["In"].field_map["g"].default_value]
+        text = schema.to_string()
+        rebuilt = build_schema(text)
+        text2 = rebuilt.to_string()
+        # the SDL-declared scalar hands number literals to its consumers as their source text, so a default that was a string stays that string
+        ok = text2 == text and [json.dumps(d) for d in defaults(rebuilt)][WH:WH + 2] == [json.dumps(d) for d in defaults(schema)][WH:WH + 2]
+    return result(ok, True)
+
+
 def fresh_text(name, oi):
     key = (name, oi)
     if key not in _FRESH:
@@ -306,6 +339,12 @@ def _solve_int_re(tier):
 
 
 CONDITIONS = [
+    Cond(
+        name="scalar_default_texts", fn=_scalar_default_texts, quick=60, thorough=60,
+        bound="%d string values of a custom scalar that look more or less like numbers ('007', '1e5', ' 12', '1_000', 'inf', 'nan', '42.42', '-0.0', '1e400', ...) as default of an argument, a list item, "
+              "an input field and inside an object default x SDL-built / code-built: the printed text builds a schema with the SAME default values that prints the same text" % len(SCALAR_TEXTS),
+        symbolic={"t,where,code": "choice"}, witness={"t": 1, "where": 0, "code": False},
+    ),
     Cond(
         name="directive_whitelist", fn=_directive_whitelist, quick=100, thorough=100,
         bound="the white-list form of include_custom_schema_directives: 2 SDL-built schemas carrying custom directives on every kind of element next to @deprecated x every subset (both orders) of "
